@@ -145,13 +145,20 @@ def run(ctx):
                 if c in ("keys", "values", "keysser", "valuesser") and r["cells"][0]["kind"] != "map":
                     continue
                 pred = "fast"
-                if c == "native" and "diverge" in r["asis"]["nat"]:
+                # SETITEM stores a CLONE of a struct value, so a heap whose struct cells are referenced from a slot is
+                # not the heap the model describes: its marshalling outcome is not predicted -> sampled, one child each
+                struct_ref = any(s != 0 and r["cells"][s - 1]["kind"] == "str" for cell in r["cells"] for s in cell["slots"])
+                if c == "native" and struct_ref:
+                    pred = "unpredicted"
+                elif c == "native" and "diverge" in r["asis"]["nat"]:
                     pred = "fatal"
                 elif c in ("ser", "serdeser", "keysser", "valuesser") and "errsize" in r["asis"]["ser"]:
                     pred = "slow"
                 cls = nv.shape_class(r)
                 if pred == "fatal":
                     cls = "cycle-at-non-first-element:" + nv.marshal_loop_kinds(r["cells"])
+                elif pred == "unpredicted":
+                    cls = "struct-clone-heap"
                 add("heap:" + c, cls, nv.program(r["cells"], c), pred, meta=nv.heap_text(r))
         for name, code in skeletons():
             add("skeleton", name, code, "fast" if not name.startswith("nest") or ":native" not in name else "fast")
@@ -162,30 +169,33 @@ def run(ctx):
             for c in ("ser", "notify", "equal"):
                 add("dag:" + c, "shared-subarray-dag:w%d-d%d" % (w, d), dag(w, d) + nv.CONSUMERS[c](), "single")
             add("dag:native", "shared-subarray-dag", dag(w, d) + nv.CONSUMERS["native"](), "single")
-        n_rand = 4000 if ctx.thorough else 500
+        n_rand = 4000 if ctx.thorough else 300
         for i in range(n_rand):
             add("random-bytecode", "random", random_code(ctx.rng), "fast", modes=(bool(i % 2),))
         for i in range(n_rand):
             add("random-native-call", "random", native_call(ctx.rng), "fast", modes=(False,))
     for i, p in enumerate(progs):
         p["id"] = i
-    GAS = 1000000
+    GAS = 200000
 
     def item(p):
         return {"id": p["id"], "hex": p["hex"], "preexec": p["preexec"], "gas": GAS, "reps": 1}
     fast = [item(p) for p in progs if p["pred"] == "fast"]
     nproc = min(vf.NCPU, 8)
-    res, deaths = nv.run_children_parallel(ctx, binary, "TestVerifPrograms", fast, "fast", 900, nproc, defop="run")
+    res, deaths = nv.run_children_parallel(ctx, binary, "TestVerifPrograms", fast, "fast", 180, nproc, defop="run")
     ctx.log("fast batch: %d programs, %d answered, %d child deaths" % (len(fast), len(res), deaths))
     # slow + fatal (as predicted by the as-coded model) and the big DAGs: sampled / one child each
     by = {}
     for p in progs:
-        if p["pred"] in ("fatal", "slow"):
+        if p["pred"] in ("fatal", "slow", "unpredicted"):
             by.setdefault((p["pred"], p["cls"]), []).append(p)
     n_each = 6 if ctx.thorough else 2
     picked = []
+    slow_all = [p for k in sorted(by) if k[0] == "slow" for p in by[k]]
+    picked += ctx.rng.sample(slow_all, min(len(slow_all), 6 * n_each))
     for k in sorted(by):
-        picked += ctx.rng.sample(by[k], min(len(by[k]), n_each if k[0] == "fatal" else 2 * n_each))
+        if k[0] != "slow":
+            picked += ctx.rng.sample(by[k], min(len(by[k]), n_each if k[0] == "fatal" else 3 * n_each))
     singles = [p for p in progs if p["pred"] == "single"]
     res2 = []
     deaths2 = 0
@@ -197,11 +207,12 @@ def run(ctx):
             res2 += r
             deaths2 += d
     ctx.log("predicted fatal/slow and large-DAG programs: %d run one per child (of %d held back), %d child deaths" % (len(picked) + len(singles), sum(len(v) for v in by.values()) + len(singles), deaths2))
+    # (a death among the sampled programs means the remaining held-back ones would mostly die too: they stay held back)
     rest = []
     if deaths2 == 0:
         done = {p["id"] for p in picked}
-        rest = [item(p) for p in progs if p["pred"] in ("fatal", "slow") and p["id"] not in done]
-        r4, d4 = nv.run_children_parallel(ctx, binary, "TestVerifPrograms", rest, "rest", 900, nproc, defop="run")
+        rest = [item(p) for p in progs if p["pred"] in ("fatal", "slow", "unpredicted") and p["id"] not in done]
+        r4, d4 = nv.run_children_parallel(ctx, binary, "TestVerifPrograms", rest, "rest", 180, nproc, defop="run")
         res2 += r4
         ctx.log("held-back programs: %d run, %d child deaths" % (len(rest), d4))
 
@@ -214,6 +225,8 @@ def run(ctx):
             outc = o["out"]
             if p["fam"] == "dag:native" and outc in ("timeout", "oom"):
                 outc = "unbounded-expansion"
+            elif p["fam"] == "heap:native" and p["pred"] in ("fatal", "unpredicted"):
+                outc = "unbounded-recursion"     # stack overflow, or the time limit while the 1 GB stack grows on a loaded machine
             key = "%s:%s:%s" % (p["fam"].replace("heap:native", "NativeInvoke").replace("dag:native", "NativeInvoke"), p["cls"], outc)
             viol.setdefault(key, []).append((p, o))
         elif o["obs"][0]["ok"]:
@@ -250,7 +263,7 @@ def finish(ctx, stats, n, extra):
     cov.update(extra)
     ctx.finish("model_checking", cov, [
         "the specification is a value-graph / resource-guard model: it generates the adversarial heaps and states totality; it is not a model of all NeoVM semantics (DESIGN.md section 5)",
-        "scope of this check: NeoVM bytecode through SmartContract.NewExecuteEngine().Invoke() in transaction mode (gas limit 10^6) and pre-execution mode (step limit), "
+        "scope of this check: NeoVM bytecode through SmartContract.NewExecuteEngine().Invoke() in transaction mode (gas limit 200000) and pre-execution mode (step limit), "
         "syscalls into runtime/storage/native contracts on an empty in-memory ledger state; EVM bytecode and WASM are not exercised",
         "a program counts as hanging when one run exceeds 120 s wall clock (the same programs need < 1 s when they fault properly)",
         "programs on which the as-coded model predicts a fatal run are sampled per structural class (each costs a process)",
